@@ -526,7 +526,7 @@ def run_inv(scratch, inv, extra_env=None):
     res.stubcalls = []
     sc = os.path.join(logdir, "stub-calls.jsonl")
     if os.path.exists(sc):
-        with open(sc) as f:
+        with open(sc, errors="surrogateescape") as f:  # (a recorded argv[0] need not be UTF-8)
             for line in f:
                 try:
                     res.stubcalls.append(json.loads(line))
